@@ -339,7 +339,7 @@ theorem dataArm_errsIn {A : Span} (v : SVariant ν) (hv : VariantSpansIn A v) (n
           cases bad with
           | some b =>
               obtain ⟨msg, bs⟩ := b
-              exact errsIn_err (leaf_allWithin _ _ (within_trans hwf.1.2 hA))
+              exact errsIn_err ((leaf_allWithin _ _ (within_trans hwf.1.2 hA)).at _)
           | none =>
               simp only []
               have hi := nestedWFList_mono hA items hwf.2
